@@ -1146,12 +1146,11 @@ impl<'src: 'ast, 'ast> Parser<'src, 'ast> {
             return self.alloc(Expr::String { parts: StringParts::Static(s), span });
         }
 
+        // A literal with escapes was unescaped into an owned buffer; give it the
+        // lifetime of the AST so its placeholders are interpolated like any other.
         let template: &'ast str = match &content {
             ArenaCow::Borrowed(s) => s,
-            ArenaCow::Owned(..) => {
-                let s = self.alloc_str(content);
-                return self.alloc(Expr::String { parts: StringParts::Static(s), span });
-            }
+            ArenaCow::Owned(..) => self.alloc_str(content),
         };
 
         let segments = self.parse_template_segments(template);
